@@ -421,14 +421,15 @@ class TreeRun:
         if live["dups"]:
             self.fail("C01", "duplicated-in-tree", opkind, wd.nodes.get(live["dups"][0], {}).get("cls", "?"), where,
                       f"entity reached twice walking the tree: {live['dups']}")
-        for uid, node in live["nodes"].items():
-            if "pg_children" in node and isinstance(node.get("pgs"), dict) and node["pg_children"] != sorted(node["pgs"]):
+        for uid, listed in (live.get("pg_children") or {}).items():
+            node = live["nodes"].get(uid) or {}
+            if isinstance(node.get("pgs"), dict) and listed != sorted(node["pgs"]):
                 for prop in ("C01", "C05"):
                     self.fail(prop, "child-list-vs-property-groups", opkind, node.get("cls", "?"), where,
-                              f"{node.get('cls')} {uid}: children hold property groups {node['pg_children']}, "
+                              f"{node.get('cls')} {uid}: children hold property groups {listed}, "
                               f"property_groups gives {sorted(node['pgs'])}")
                 break
-        diffs = diff_nodes(wd.nodes, live["nodes"], ignore=("pg_children",))
+        diffs = diff_nodes(wd.nodes, live["nodes"])
         for uid, field, a, b in diffs:
             cls = (wd.nodes.get(uid) or live["nodes"].get(uid) or {}).get("cls", "?")
             if field == "<missing-in-second>":
